@@ -23,7 +23,7 @@ FANOUT_CHUNK = 1
 RULE = (
     "workloads {W1 create catalog (W1p: with two workers, crash points in the writer process; W1b: patches of 19 kB written in 12 chunks of 1.6 kB; W1P (thorough): the main process of a two-worker creation is killed at each of its own write calls and at every chunk request, its children are left alone for 2.5 s), W2 overwrite a catalog of other data (W2p: with two workers; the value returned by the surviving parent must be the complete new catalog), W3 open a catalog without meta.yml (metadata "
     "computed), W4 first build_trees, W5 rebuild for other edges of the same bin count (W5f: forced), W6 rebuild binned->unbinned, W7 "
-    "CorrFunc.to_file over an older file, W8 CorrData.to_files over older files, W9 Configuration.to_file over an older "
+    "CorrFunc.to_file over an older file, W8 CorrData.to_files over older files (W8d: under a path prefix with a dot in its last component), W9 Configuration.to_file over an older "
     "file} x every crash point = entry of every mutating file-system call (mkdir, creating/truncating openat, write, "
     "pwrite64, unlink, rmdir, rename, ftruncate) of the recorded workload (W1 | W2, W5, W7, W9 additionally with SIGINT instead of SIGKILL: death by KeyboardInterrupt with stack unwinding; W7L, W7nL (no file at the path before) | W1L, W2L, W5L, W9L, W7n: KeyboardInterrupt before every executed line of library code of the step), injected with strace "
     "inject=<call>:signal=KILL:when=<ordinal> under a -P path filter. Oracle (another process): each use of what survived "
@@ -39,8 +39,8 @@ ASSUMPTIONS = [
     "sequential pipeline only (YAW_NUM_THREADS=1)",
 ]
 
-QUICK = ("W1", "W2", "W5f", "W7", "W8", "W2p", "W1b", "W7L", "W7nL")
-ALL = ("W1", "W2", "W3", "W4", "W5", "W5f", "W6", "W7", "W8", "W9", "W1p", "W2p", "W1b", "W1P", "W7L", "W9L", "W1L", "W2L", "W5L", "W7n", "W7nL")
+QUICK = ("W1", "W2", "W5f", "W7", "W8", "W8d", "W2p", "W1b", "W7L", "W7nL")
+ALL = ("W1", "W2", "W3", "W4", "W5", "W5f", "W6", "W7", "W8", "W9", "W1p", "W2p", "W1b", "W1P", "W7L", "W9L", "W1L", "W2L", "W5L", "W7n", "W7nL", "W8d")
 
 
 def norm(text, base):
@@ -243,9 +243,9 @@ def observe(wl, base):
             return bad
         if not ((wl == "W7" and got == F[("cf", "old")]) or got == F[("cf", "new")]):
             bad.append(("reads-back-neither-old-nor-new", "CorrFunc file reads back as neither the old nor the new object"))
-    elif wl == "W8":
+    elif wl in ("W8", "W8d"):
         try:
-            got = yaw.CorrData.from_files(os.path.join(base, "cd"))
+            got = yaw.CorrData.from_files(os.path.join(base, "cd" if wl == "W8" else "nz_0.1"))
         except Exception:
             return bad
         if not (got == F[("cd", "old")] or got == F[("cd", "new")]):
